@@ -18,7 +18,7 @@ RULE = ("cases: PD operators (every PD class at the root, nestings to depth 2-3,
         "log-determinant equals log|P| + (n/m) sum_i u_i^T log(P^-1/2 A P^-1/2) u_i evaluated densely for the probe vectors "
         "recorded from the cg.begin hook event (P from the operator's own preconditioner, identity without one) whenever both "
         "budgets reach n (n <= 12; quick sizes include 10-12 so that CG runs past its 10-iteration minimum); inv_quad is judged with the CG tolerance bound. distinct key = (root class, query, path, rhs kind, "
-        "reduce, settings key, dtype) [round 4: a factorization (cholesky / root / inverse root / diagonalization) may be requested on the same object before the query: cached triangular roots steer inv_quad_logdet] [round 5: the stochastic quadrature identity is judged only when P^-1/2 A P^-1/2 has condition number <= 1e3 as well]")
+        "reduce, settings key, dtype) [round 4: a factorization (cholesky / root / inverse root / diagonalization) may be requested on the same object before the query: cached triangular roots steer inv_quad_logdet] [round 5: the stochastic quadrature identity is judged only when P^-1/2 A P^-1/2 has condition number <= 1e3 as well] [round 7: 4% of the cases are Kronecker products (s A) x (B / s) with s in {1e-9, 1e-8, 1e8}: a well-conditioned O(1) product whose factors carry opposite scales, judged on the direct path]")
 ASSUMPTIONS = ["float64 eigendecomposition of the dense matrix is the reference for log / inverse", "probe vectors = first n_tridiag "
                "columns of the normalised right-hand side in the cg.begin hook event", "preconditioner matrix P = dense value of the "
                "operator returned by op._preconditioner() (its exactness is C10)"]
@@ -49,6 +49,15 @@ def gen_cases(ctx):
             precond=rng.choice([None, None, 2, 15]),
             cg_tolerance=rng.choice([None, 1e-4, 1e-8]),
         )
+        if rng.random() < 0.04:
+            # round 7: Kronecker products whose FACTORS carry opposite scales (s A) x (B / s): the product is well conditioned and O(1),
+            # so the exact Kronecker-eigenvalue log-determinant must not depend on how the scale is split between the factors
+            yield dict(spec=spec, unbalanced=dict(n1=rng.choice([2, 3]), n2=rng.choice([2, 3, 4]), s=rng.choice([1e-9, 1e-8, 1e8]),
+                                                  batch=rng.choice([[], [2]])),
+                       query=rng.choice(["logdet", "torch.logdet", "inv_quad_logdet"]), rhs="mat", reduce=True, want_logdet=True,
+                       cfg=dict(cfg, max_cholesky_size=rng.choice([None, 0]), precond=None, skip_logdet_forward=None),
+                       rseed=rng.randrange(1 << 30), cached=None)
+            continue
         yield dict(spec=spec, query=rng.choice(["logdet", "torch.logdet", "inv_quad", "inv_quad_logdet", "inv_quad_logdet"]),
                    rhs=rng.choice(["none", "vec", "mat", "mat"]), reduce=rng.random() < 0.6, want_logdet=rng.random() < 0.8,
                    cfg=cfg, rseed=rng.randrange(1 << 30),
@@ -64,11 +73,25 @@ def run_case(case, ctx):
     from linear_operator.utils.warnings import NumericalWarning
 
     spec = case["spec"]
-    b = common.try_build(spec, ctx)
-    if b is None:
-        return
+    if case.get("unbalanced"):
+        from linear_operator.operators import DenseLinearOperator, KroneckerProductLinearOperator
+
+        ub = case["unbalanced"]
+        g0 = torch.Generator().manual_seed(case["rseed"] ^ 0x5A5A)
+        A1 = zoo.pd_matrix(g0, ub["n1"], ub["batch"], kappa=4.0, family="uniform")
+        A2 = zoo.pd_matrix(g0, ub["n2"], ub["batch"], kappa=4.0, family="uniform")
+        spec = dict(spec, batch=list(ub["batch"]), cls="UnbalancedKron", n=ub["n1"] * ub["n2"], m=ub["n1"] * ub["n2"], dtype="f64")
+        op = KroneckerProductLinearOperator(DenseLinearOperator(A1 * ub["s"]), DenseLinearOperator(A2 / ub["s"]))
+        dense = torch.stack([torch.kron(a, b_) for a, b_ in zip(A1.reshape(-1, ub["n1"], ub["n1"]), A2.reshape(-1, ub["n2"], ub["n2"]))])
+        dense = dense.reshape(*ub["batch"], spec["n"], spec["n"])
+        ctx.case = case
+        ctx.stat("unbalanced_kron_cases")
+    else:
+        b = common.try_build(spec, ctx)
+        if b is None:
+            return
+        op, dense = b.op, b.dense
     rng = random.Random(case["rseed"])
-    op, dense = b.op, b.dense
     n, batch = spec["n"], spec["batch"]
     dt = dense.dtype
     A64 = dense.to(torch.float64)
@@ -90,9 +113,9 @@ def run_case(case, ctx):
         rhs = torch.randn(*batch, n, rng.choice([1, 2, 3]), generator=g, dtype=torch.float64).to(dt)
     reduce = case["reduce"] or rk == "vec"  # a vector right-hand side is one column: (1,) vs () is not judged
     cfg = dict(case["cfg"])
-    tags = common.spec_tags(spec)
+    tags = common.spec_tags(spec) if not case.get("unbalanced") else []  # the carrier spec's structure is not this operator's
     info = common.spec_info(spec) | {"q:" + query, "rhs:" + rk, "cfg:" + settings_key(cfg), f"reduce:{int(reduce)}"}
-    path = zoo.class_path(spec, 2)
+    path = zoo.class_path(spec, 2) if not case.get("unbalanced") else "KroneckerProduct(Dense*s,Dense/s)"
     ctx.stat("queries")
 
     def call():
@@ -123,6 +146,9 @@ def run_case(case, ctx):
     pathk = "cg" if used_cg else ("lanczos" if used_lanczos else "direct")
     ctx.stat("path:" + pathk)
     kw = dict(cls=spec["cls"], path=path, tags=set(tags) | {"path:" + pathk}, info=info)
+    if case.get("unbalanced") and pathk != "direct":
+        ctx.stat("unbalanced_kron_on_an_iterative_path(not judged)")  # the iterative kernels have absolute safeguards
+        return
     if ex is not None:
         if compare.explicit_unsupported(ex):
             ctx.stat(f"unsupported:{spec['cls']}:{ex.frame}")
